@@ -1259,6 +1259,49 @@ def translate(repo):
           "Definition src_protocol : list N := %s." % coq_bytes(trlit[4]), ""]
 
 
+    # ---- src/head.rs: read_http_head (the read loop) and read_head_bytes (the delimiter search)
+    rh, rhb = [], None
+    try:
+        hs = read(repo, "src/head.rs")
+        t = re.sub(r"\s+", "", fn_body(hs, "pub async fn read_http_head"))
+        m = re.fullmatch(r"loop\{(.*)\}", t)
+        if not m:
+            raise ValueError("read_http_head: not a single loop")
+        t = m.group(1)
+        RHE = {"HeadTooLong": "RHEHeadTooLong", "Disconnected": "RHEDisconnected", "Truncated": "RHETruncated"}
+        FORMS = [
+            (r"matchHead::try_read\(buf\)\{Ok\(head\)=>returnOk\(head\),Err\(HeadError::Truncated\)=>\{\}Err\(e\)=>returnErr\(e\.into\(\)\),\}",
+             lambda m: "RHTryRead"),
+            (r"ifbuf\.writable\(\)\.is_empty\(\)\{returnErr\(HttpError::(\w+)\);\}", lambda m: "RHReturnIfFull %s" % RHE.get(m.group(1), "RHEOther")),
+            (r"matchstream\.read\(buf\.writable\(\)\)\.await\{Err\(\.\.\)\|Ok\(0\)ifbuf\.is_empty\(\)=>returnErr\(HttpError::(\w+)\),"
+             r"Err\(\.\.\)\|Ok\(0\)=>returnErr\(HttpError::(\w+)\),Ok\(n\)=>buf\.wrote\(n\),\}",
+             lambda m: "RHRead %s %s" % (RHE.get(m.group(1), "RHEOther"), RHE.get(m.group(2), "RHEOther"))),
+        ]
+        while t:
+            for pat, mk in FORMS:
+                mm = re.match(pat, t)
+                if mm:
+                    rh.append(mk(mm)); t = t[mm.end():]
+                    break
+            else:
+                raise ValueError("read_http_head statement %r" % t[:70])
+        b = re.sub(r"\s+", "", fn_body(hs, "fn read_head_bytes"))
+        m = re.fullmatch(r'lethead_len=find_slice\(b"((?:[^"\\]|\\.)*)",buf\.readable\(\)\)\.ok_or\(HeadError::Truncated\)\?;'
+                         r"lethead_bytes_with_delim=buf\.try_read_exact\(head_len\+(\d+)\)\.unwrap\(\);"
+                         r"lethead_bytes=&head_bytes_with_delim\[0\.\.head_len\];Ok\(head_bytes\)", b)
+        if not m:
+            raise ValueError("read_head_bytes")
+        rhb = (rust_unescape(m.group(1)), int(m.group(2)))
+    except Exception as e:   # noqa
+        P.append("src/head.rs read_http_head: cannot translate (%s)" % e)
+        rh, rhb = [], (b"", 0)
+    L += ["(* src/head.rs read_http_head: the body of its loop; read_head_bytes: the delimiter searched for and how many bytes",
+          "   beyond the head are consumed *)",
+          "Definition src_read_http_head : list rh_stmt := [%s]." % "; ".join(rh),
+          "Definition src_head_delim : list N := %s." % coq_bytes(rhb[0]),
+          "Definition src_head_delim_consumed : N := %d." % rhb[1], ""]
+
+
     # ---- src/head.rs: the two regex literals
     rx = []
     try:
@@ -1277,7 +1320,7 @@ def translate(repo):
     items = [("chunk", "src/util.rs"), ("event_queue", "src/response.rs event_stream"), ("conn_buf", "src/http_conn.rs HttpConn.buf"), ("conn_guards", "src/http_conn.rs state guards"),
              ("time", "src/time.rs"), ("content_type", "src/content_type.rs"), ("log_prio", "src/log/logger.rs log()"),
              ("event_fmt", "src/event.rs"), ("regex", "src/head.rs: cannot translate the regex"), ("cookie", "src/cookie.rs"), ("request", "src/request.rs"),
-             ("json", "src/log/tag_value.rs"), ("jsonl", "src/log/logger.rs write_jsonl"), ("writer", "src/log/log_file_writer.rs"), ("headers", "src/headers.rs"), ("pfs", "src/log/prefix_file_set.rs"), ("token_set", "src/token_set.rs"), ("write_response", "src/http_conn.rs write_response"), ("conn_loop", "src/http_conn.rs handle_http_conn"), ("resp_head", "src/response.rs write_http_response"), ("accept", "src/accept.rs accept_loop"), ("try_read", "src/head.rs try_read"), ("read_body", "src/http_conn.rs read_body")]
+             ("json", "src/log/tag_value.rs"), ("jsonl", "src/log/logger.rs write_jsonl"), ("writer", "src/log/log_file_writer.rs"), ("headers", "src/headers.rs"), ("pfs", "src/log/prefix_file_set.rs"), ("token_set", "src/token_set.rs"), ("write_response", "src/http_conn.rs write_response"), ("conn_loop", "src/http_conn.rs handle_http_conn"), ("resp_head", "src/response.rs write_http_response"), ("accept", "src/accept.rs accept_loop"), ("try_read", "src/head.rs try_read"), ("read_body", "src/http_conn.rs read_body"), ("read_head", "src/head.rs read_http_head")]
     L.append("(* what the translator could not read, per item (0 everywhere = the translation is complete) *)")
     for key, prefix in items:
         L.append("Definition src_problems_%s : nat := %d." % (key, sum(1 for p in P if p.startswith(prefix))))
